@@ -91,6 +91,12 @@ def gen_cases(rng, tier, scale):
                 items = [_x(pre_), _t('raw', True, False, tr, quad=True), _x('\n' + body + '\n'), _t('/raw', True, quad=True), _x('\n' + post_)]
                 cases.append(rcase(f'rb{j}', _src(items), {'x': 'X'}, entry=4, kind='whole', s=' ' + body, exp=_exp(items), tags=['rawblock-standalone']))
                 j += 1
+    # a dashed comment ends at `--}}` only: braces, closing braces and whole tags inside it are comment text
+    for j3, body in enumerate([' }} ', ' {{x}} ', '{{#if a}}never{{/if}}', ' }}}} ', ' a }} b {{ c ', '}}', ' {{!inner}} ', ' {{{{raw}}}} ', '\n}}\n']):
+        for pre_, post_ in (('x', 'y'), ('{{v}}', '{{v}}'), ('a ', ' b')):
+            t = pre_ + '{{!--' + body + '--}}' + post_
+            e = (pre_ + post_).replace('{{v}}', 'V')
+            cases.append(rcase(f'dc{j3}_{len(pre_)}', t, {'v': 'V', 'a': True, 'x': 'X'}, entry=4, kind='whole', s='}}', exp=e, tags=['dashed-comment-braces']))
     # a lone CR (not followed by LF) is ordinary text: it is never removed, also not directly after a tag that
     # stands at the start of a line
     for j2, (tpl, exp) in enumerate([('{{! note }}\rbody', '\rbody'), ('{{#if t}}\rx{{/if}}', '\rx'), ('{{{{raw}}}}\rz{{{{/raw}}}}', '\rz'),
